@@ -173,3 +173,48 @@ Definition prop_C06_frame (root : tree) (sep : str) (p : pos) (o : opts)
 
 Definition prop_C06_nested (root : tree) (p : pos) (o : opts) (out : res tree) : bool :=
   opt_agree tree_eqb (option_map canon_nested (spec_nested root p o)) out.
+
+(* ---------------------------------------------------------------------------------------------- *)
+(* frames, exactly: nulls and attribute order *)
+
+(* the source tree with exactly the null-valued attributes removed *)
+Fixpoint strip_nulls (t : tree) : tree :=
+  match t with
+  | T g n a ks => T g n (filter (fun kv => negb (is_null (snd kv))) a) (map strip_nulls ks)
+  end.
+
+(* keys in order of first appearance *)
+Fixpoint first_seen (seen : list str) (l : list str) : list str :=
+  match l with
+  | [] => []
+  | k :: r => if existsb (str_eqb k) seen then first_seen seen r else k :: first_seen (k :: seen) r
+  end.
+
+(* columns of the full export of the whole tree: first-seen order over the records in pre-order *)
+Definition export_columns (sep : str) (t : tree) : list str :=
+  frame_columns (map (frame_record (Opts s_name [] s_path [] true 0 0 false) sep) (nodes_under [] t)).
+
+Definition cell (c : str) (r : record) : val :=
+  match dict_get c r with Some v => v | None => VNone end.
+
+(* attributes of a re-imported node: the attribute columns in column order, restricted to the node's
+   non-null cells *)
+Definition reimported_attrs (sep : str) (t x : tree) : record :=
+  filter (fun kv => negb (is_null (snd kv)) && negb (str_eqb (fst kv) s_name)
+                    && negb (str_eqb (fst kv) s_path))
+         (map (fun c => (c, cell c (requested (Opts s_name [] s_path [] true 0 0 false) x)))
+              (filter (fun c => negb (str_eqb c s_path)) (export_columns sep t))).
+
+Fixpoint retree (f : tree -> record) (t : tree) : tree :=
+  match t with T _ n _ ks => T None n (f t) (map (retree f) ks) end.
+
+(* ---------------------------------------------------------------------------------------------- *)
+(* the umbrella: every observation of one case (one tree, start node, option set) *)
+
+Definition prop_C06_all (root : tree) (sep : str) (p : pos) (o : opts)
+           (o_dict : res (list (str * record))) (o_nested : res tree) (o_df o_pl : res (list record))
+           (rt_d rt_n rt_f rt_p : res tree) : bool :=
+  prop_C06_dict root sep p o o_dict && prop_C06_nested root p o o_nested
+  && prop_C06_frame root sep p o o_df && prop_C06_frame root sep p o o_pl
+  && prop_rt_path false sep root rt_d && prop_rt_nested root rt_n
+  && prop_rt_path true sep root rt_f && prop_rt_path true sep root rt_p.
